@@ -11,10 +11,12 @@ import (
 	"crypto/ecdsa"
 	"crypto/ed25519"
 	"crypto/elliptic"
+	"encoding/base64"
 	"encoding/json"
 	"errors"
 	"fmt"
 	"math/big"
+	"strings"
 
 	"github.com/btcsuite/btcd/btcec"
 
@@ -56,6 +58,12 @@ func verifyEd25519Signature(jwk *jws.JWK, signature, msg []byte) error {
 
 // GetED25519PublicKey retunns ed25519 public key.
 func GetED25519PublicKey(jwk *jws.JWK) (ed25519.PublicKey, error) {
+	// the JWK library pads or truncates the x coordinate to the key size, so its length has to be checked here
+	x, err := base64.RawURLEncoding.DecodeString(strings.TrimRight(jwk.X, "="))
+	if err != nil || len(x) != ed25519.PublicKeySize {
+		return nil, errors.New("ed25519: invalid key")
+	}
+
 	jsonBytes, err := json.Marshal(jwk)
 	if err != nil {
 		return nil, err
